@@ -413,6 +413,12 @@ class _Run(object):
             n = 0 if toks[-1].endswith(':-') else toks[-1].count(',') + 1
             ctx.count('id:%s:%s' % ({'u': 'unicode', 'b': 'bcdplus', 's': '6bit', 'a': 'ascii8'}[id_enc],
                                     'len0' if n == 0 else 'len1-8' if n <= 8 else 'len9-16' if n <= 16 else 'len17+'))
+            if id_enc == 'b' and n and any(int(d) >= 13 for d in toks[-1][2:].split(',')):
+                ctx.count('id:bcdplus:codes-D/E/F:' + kind)
+        if kind in ('SdrFruDeviceLocator', 'SdrManagementControllerConfirmationRecord') and toks[1] in ('fru', 'conf'):
+            ch, low = (int(toks[7]), int(toks[8])) if toks[1] == 'fru' else (int(toks[6]), int(toks[7]))
+            ctx.count('channel:%s:%s' % (toks[1], 'low-nibble-nonzero' if low else 'low-nibble-zero'))
+            ctx.extra.setdefault('channel_nibbles_seen', {}).setdefault(toks[1], set()).add(ch)
         want = _fields(fields)
         # ---- theorem instance: the intended model equals the specification's view
         ideal_fields = ideal[3:].split(' | ')[0] if ideal.startswith('ok ') else ideal
@@ -560,6 +566,7 @@ def run(ctx):
     _truncations(run_, drv, samples)
     run_.recheck()
     ctx.extra['kept_results_re_read'] = len(run_.kept)
+    ctx.extra['channel_nibbles_seen'] = dict((k, sorted(v)) for k, v in ctx.extra.get('channel_nibbles_seen', {}).items())
     ctx.extra['signatures_seen'] = sorted(run_.sig_seen)
 
 
